@@ -11,6 +11,14 @@ Definition allowed : list allow := [
   ("chord", "join", "augassign-name", "chord_label");
   (* `contingency[nnz]` is advanced (index-array) indexing, which always copies: `contingency_nm /= ...` divides the copy *)
   ("segment", "_mutual_info_score", "augassign-name", "contingency_nm");
+  (* merged_ivs is a list created in this call whose items are the list literals [s, e] appended just above (s, e are NumPy scalars);
+     the analysis cannot separate the components of the zip() tuples, hence the parameter tags *)
+  ("chord", "merge_chord_intervals", "store", "merged_ivs[-1]");
+  (* columns = tuple(list() for _ in converters): lists created in this call; `column` is one of them (zip element) *)
+  ("io", "load_delimited", "method-append", "column");
+  (* pairs = [list(), list()]: created in this call *)
+  ("util", "intersect_files", "method-append", "pairs[0]");
+  ("util", "intersect_files", "method-append", "pairs[1]");
   (* new_layer is a dict created in this call; setdefault(v, []) returns a list stored only in it *)
   ("util", "_bipartite_match", "method-append", "new_layer.setdefault(v, [])");
   (* closure over preds / pred, dicts created by the enclosing call of _bipartite_match *)
